@@ -1,6 +1,10 @@
 package ref_test
 
 import (
+	"fmt"
+	"sort"
+	"strconv"
+	"strings"
 	"testing"
 
 	"pgregory.net/rapid"
@@ -10,15 +14,16 @@ import (
 	"verif/ref"
 )
 
+// Documents the generator calls valid satisfy all 24 reference rules (3 per check: 300 with
+// rapid's default of 100 checks).
 func TestValidateGeneratedDocsAreValid(t *testing.T) {
-	n := 0
 	rapid.Check(t, func(rt *rapid.T) {
-		s := gen.Schema(rt, gen.SchemaOpts{Mutation: gen.Chance(rt, 30, "mut"), Directives: gen.Chance(rt, 30, "dirs")})
-		d, _, _ := gen.Doc(rt, s, gen.DocOpts{})
-		n++
-		v := ref.Validate(s, d)
-		if bad := ref.Violated(v); len(bad) > 0 {
-			rt.Fatalf("generated document violates %v\n%v\n%s", bad, v, model.Print(d, nil).Text)
+		for i := 0; i < 3; i++ {
+			s, d := genCase(rt)
+			v := ref.Validate(s, d)
+			if bad := ref.Violated(v); len(bad) > 0 {
+				rt.Fatalf("generated document violates %v\n%v\n%s", bad, v, model.Print(d, nil).Text)
+			}
 		}
 	})
 }
@@ -83,5 +88,532 @@ func TestValidateInjectedViolations(t *testing.T) {
 		if applied[i] == 0 {
 			t.Errorf("operator %s was never applicable", n)
 		}
+	}
+}
+
+// ---------------------------------------------------------------------------------------------
+// A tiny reader for the executable subset of the grammar, so that the hand-written cases below
+// can be spelled as text. It produces the same model values a generator would build.
+
+type miniParser struct {
+	toks []string
+	i    int
+}
+
+func miniLex(src string) []string {
+	var out []string
+	for i := 0; i < len(src); {
+		c := src[i]
+		switch {
+		case c == ' ' || c == '\n' || c == '\t' || c == ',':
+			i++
+		case strings.HasPrefix(src[i:], "..."):
+			out = append(out, "...")
+			i += 3
+		case strings.ContainsRune("{}()[]:!$@=", rune(c)):
+			out = append(out, string(c))
+			i++
+		case c == '"':
+			j := i + 1
+			for src[j] != '"' {
+				j++
+			}
+			out = append(out, src[i:j+1])
+			i = j + 1
+		default:
+			j := i
+			for j < len(src) && (src[j] == '_' || src[j] == '-' || src[j] == '.' || src[j] >= '0' && src[j] <= '9' || src[j] >= 'a' && src[j] <= 'z' || src[j] >= 'A' && src[j] <= 'Z') {
+				if src[j] == '.' && strings.HasPrefix(src[j:], "...") {
+					break
+				}
+				j++
+			}
+			if j == i {
+				panic("miniLex: bad character " + string(c))
+			}
+			out = append(out, src[i:j])
+			i = j
+		}
+	}
+	return out
+}
+
+func (p *miniParser) peek() string {
+	if p.i < len(p.toks) {
+		return p.toks[p.i]
+	}
+	return ""
+}
+func (p *miniParser) next() string { t := p.peek(); p.i++; return t }
+func (p *miniParser) expect(t string) {
+	if got := p.next(); got != t {
+		panic(fmt.Sprintf("miniParser: expected %q, got %q at token %d of %v", t, got, p.i-1, p.toks))
+	}
+}
+
+func parseDoc(src string) *model.Doc {
+	p := &miniParser{toks: miniLex(src)}
+	d := &model.Doc{}
+	for p.peek() != "" {
+		d.Defs = append(d.Defs, p.def())
+	}
+	return d
+}
+
+func (p *miniParser) def() *model.Def {
+	switch p.peek() {
+	case "{":
+		return &model.Def{Kind: "query", Shorthand: true, Sel: p.selset()}
+	case "fragment":
+		p.next()
+		d := &model.Def{Kind: "fragment", Name: p.next()}
+		p.expect("on")
+		d.TypeCond = p.next()
+		d.Dirs = p.dirs()
+		d.Sel = p.selset()
+		return d
+	}
+	d := &model.Def{Kind: p.next()}
+	if t := p.peek(); t != "(" && t != "@" && t != "{" {
+		d.Name = p.next()
+	}
+	if p.peek() == "(" {
+		p.next()
+		for p.peek() != ")" {
+			p.expect("$")
+			v := &model.VarDef{Name: p.next()}
+			p.expect(":")
+			v.Type = p.typ()
+			if p.peek() == "=" {
+				p.next()
+				v.Default = p.value()
+			}
+			d.Vars = append(d.Vars, v)
+		}
+		p.next()
+	}
+	d.Dirs = p.dirs()
+	d.Sel = p.selset()
+	return d
+}
+
+func (p *miniParser) typ() model.TypeRef {
+	var t model.TypeRef
+	if p.peek() == "[" {
+		p.next()
+		in := p.typ()
+		p.expect("]")
+		t = model.TypeRef{Name: in.Name, Wrap: "[" + in.Wrap}
+	} else {
+		t = model.TypeRef{Name: p.next()}
+	}
+	if p.peek() == "!" {
+		p.next()
+		t.Wrap = "!" + t.Wrap
+	}
+	return t
+}
+
+func (p *miniParser) dirs() []*model.Dir {
+	var out []*model.Dir
+	for p.peek() == "@" {
+		p.next()
+		out = append(out, &model.Dir{Name: p.next(), Args: p.args()})
+	}
+	return out
+}
+
+func (p *miniParser) args() []*model.Arg {
+	if p.peek() != "(" {
+		return nil
+	}
+	p.next()
+	var out []*model.Arg
+	for p.peek() != ")" {
+		a := &model.Arg{Name: p.next()}
+		p.expect(":")
+		a.Val = p.value()
+		out = append(out, a)
+	}
+	p.next()
+	return out
+}
+
+func (p *miniParser) selset() []*model.Sel {
+	p.expect("{")
+	var out []*model.Sel
+	for p.peek() != "}" {
+		out = append(out, p.sel())
+	}
+	p.next()
+	return out
+}
+
+func (p *miniParser) sel() *model.Sel {
+	if p.peek() == "..." {
+		p.next()
+		switch t := p.peek(); {
+		case t == "on":
+			p.next()
+			x := &model.Sel{K: "inline", TypeCond: p.next()}
+			x.Dirs = p.dirs()
+			x.Sel = p.selset()
+			return x
+		case t == "@" || t == "{":
+			x := &model.Sel{K: "inline", Dirs: p.dirs()}
+			x.Sel = p.selset()
+			return x
+		}
+		x := &model.Sel{K: "spread", Name: p.next()}
+		x.Dirs = p.dirs()
+		return x
+	}
+	x := &model.Sel{K: "field", Name: p.next()}
+	if p.peek() == ":" {
+		p.next()
+		x.Alias, x.Name = x.Name, p.next()
+	}
+	x.Args = p.args()
+	x.Dirs = p.dirs()
+	if p.peek() == "{" {
+		x.Sel = p.selset()
+	}
+	return x
+}
+
+func (p *miniParser) value() *model.Val {
+	t := p.next()
+	switch {
+	case t == "$":
+		return model.Var(p.next())
+	case t == "[":
+		v := model.List()
+		v.L = []*model.Val{}
+		for p.peek() != "]" {
+			v.L = append(v.L, p.value())
+		}
+		p.next()
+		return v
+	case t == "{":
+		v := model.Obj()
+		for p.peek() != "}" {
+			n := p.next()
+			p.expect(":")
+			v.O = append(v.O, model.F(n, p.value()))
+		}
+		p.next()
+		return v
+	case t[0] == '"':
+		return model.Str(t[1 : len(t)-1])
+	case t == "true" || t == "false":
+		return model.Bool(t == "true")
+	case t[0] == '-' || t[0] >= '0' && t[0] <= '9':
+		if strings.ContainsAny(t, ".eE") {
+			f, err := strconv.ParseFloat(t, 64)
+			if err != nil {
+				panic(err)
+			}
+			return model.Float(f)
+		}
+		i, err := strconv.ParseInt(t, 10, 64)
+		if err != nil {
+			panic(err)
+		}
+		return model.Int(i)
+	}
+	return model.Enum(t)
+}
+
+// ---------------------------------------------------------------------------------------------
+// The schema of the table
+
+func tObj(name string, ifaces []string, fields ...*model.FieldDef) *model.TypeDef {
+	return &model.TypeDef{Kind: model.KObject, Name: name, Interfaces: ifaces, Fields: fields}
+}
+func tFld(name, typ string, args ...*model.ArgDef) *model.FieldDef {
+	return &model.FieldDef{Name: name, Type: model.T(typ), Args: args}
+}
+func tArg(name, typ string) *model.ArgDef { return &model.ArgDef{Name: name, Type: model.T(typ)} }
+
+/*
+interface Pet { name: String  id: ID! }
+interface Named { name: String }
+type Dog implements Pet, Named { name id  barks: Boolean  nick: String  owner: Human  age: Int  tags: [String]
+
+	knows(cmd: Cmd!, loud: Boolean): Boolean }
+
+type Cat implements Pet, Named { name id  meows: Boolean  nick: String! owner: Human  age: Float  tags: [String!] }
+type Human implements Named { name  nick: String  id: ID!  pets: [Pet!]  friend: Human }
+type Alien { name: String  planet: String }
+union CatOrDog = Cat | Dog        union HumanOrAlien = Human | Alien
+enum Cmd { SIT DOWN }             input Filter { min: Int!  max: Int  tags: [String!]  sub: Filter }
+type Q { pet(id: ID): Pet  dog: Dog  cat: Cat  human(id: ID!): Human  catOrDog: CatOrDog  hoa: HumanOrAlien  named: Named
+
+	search(f: Filter, ints: [Int], strict: [Int!]!, nested: [[Int]]): [Pet]   flag(b: Boolean!): Boolean   self: Q }
+
+type M { bump(by: Int = 1): Int }
+directive @onQuery on QUERY       directive @tag(n: Int!) on FIELD | FRAGMENT_DEFINITION
+*/
+var tableSchema = &model.Schema{Query: "Q", Mutation: "M",
+	Directives: []*model.DirectiveDef{
+		{Name: "onQuery", Locations: []string{"QUERY"}},
+		{Name: "tag", Locations: []string{"FIELD", "FRAGMENT_DEFINITION"}, Args: []*model.ArgDef{tArg("n", "Int!")}},
+	},
+	Types: []*model.TypeDef{
+		{Kind: model.KIface, Name: "Pet", HasResolveType: true, Fields: []*model.FieldDef{tFld("name", "String"), tFld("id", "ID!")}},
+		{Kind: model.KIface, Name: "Named", HasResolveType: true, Fields: []*model.FieldDef{tFld("name", "String")}},
+		tObj("Dog", []string{"Pet", "Named"}, tFld("name", "String"), tFld("id", "ID!"), tFld("barks", "Boolean"), tFld("nick", "String"),
+			tFld("owner", "Human"), tFld("age", "Int"), tFld("tags", "[String]"), tFld("knows", "Boolean", tArg("cmd", "Cmd!"), tArg("loud", "Boolean"))),
+		tObj("Cat", []string{"Pet", "Named"}, tFld("name", "String"), tFld("id", "ID!"), tFld("meows", "Boolean"), tFld("nick", "String!"),
+			tFld("owner", "Human"), tFld("age", "Float"), tFld("tags", "[String!]")),
+		tObj("Human", []string{"Named"}, tFld("name", "String"), tFld("nick", "String"), tFld("id", "ID!"), tFld("pets", "[Pet!]"), tFld("friend", "Human")),
+		tObj("Alien", nil, tFld("name", "String"), tFld("planet", "String")),
+		{Kind: model.KUnion, Name: "CatOrDog", HasResolveType: true, Members: []string{"Cat", "Dog"}},
+		{Kind: model.KUnion, Name: "HumanOrAlien", HasResolveType: true, Members: []string{"Human", "Alien"}},
+		{Kind: model.KEnum, Name: "Cmd", Values: []*model.EnumVal{{Name: "SIT"}, {Name: "DOWN"}}},
+		{Kind: model.KInput, Name: "Filter", InputFields: []*model.ArgDef{tArg("min", "Int!"), tArg("max", "Int"), tArg("tags", "[String!]"), tArg("sub", "Filter")}},
+		tObj("Q", nil, tFld("pet", "Pet", tArg("id", "ID")), tFld("dog", "Dog"), tFld("cat", "Cat"), tFld("human", "Human", tArg("id", "ID!")),
+			tFld("catOrDog", "CatOrDog"), tFld("hoa", "HumanOrAlien"), tFld("named", "Named"),
+			tFld("search", "[Pet]", tArg("f", "Filter"), tArg("ints", "[Int]"), tArg("strict", "[Int!]!"), tArg("nested", "[[Int]]")),
+			tFld("flag", "Boolean", tArg("b", "Boolean!")), tFld("self", "Q")),
+		tObj("M", nil, tFld("bump", "Int", &model.ArgDef{Name: "by", Type: model.T("Int"), Default: model.Int(1)})),
+	}}
+
+type tableCase struct {
+	name string
+	doc  string
+	want string // violated rules, space separated, any order; "" = valid
+}
+
+const (
+	rArgs     = "ArgumentsOfCorrectType"
+	rDefault  = "DefaultValuesOfCorrectType"
+	rFields   = "FieldsOnCorrectType"
+	rFragComp = "FragmentsOnCompositeTypes"
+	rKnownArg = "KnownArgumentNames"
+	rKnownDir = "KnownDirectives"
+	rKnownFrg = "KnownFragmentNames"
+	rKnownTyp = "KnownTypeNames"
+	rLoneAnon = "LoneAnonymousOperation"
+	rCycles   = "NoFragmentCycles"
+	rUndefVar = "NoUndefinedVariables"
+	rUnusedFr = "NoUnusedFragments"
+	rUnusedVa = "NoUnusedVariables"
+	rOverlap  = "OverlappingFieldsCanBeMerged"
+	rSpreads  = "PossibleFragmentSpreads"
+	rRequired = "ProvidedNonNullArguments"
+	rLeafs    = "ScalarLeafs"
+	rUniqArg  = "UniqueArgumentNames"
+	rUniqFrag = "UniqueFragmentNames"
+	rUniqInp  = "UniqueInputFieldNames"
+	rUniqOp   = "UniqueOperationNames"
+	rUniqVar  = "UniqueVariableNames"
+	rVarInput = "VariablesAreInputTypes"
+	rVarPos   = "VariablesInAllowedPosition"
+)
+
+var tableCases = []tableCase{
+	// --- overlapping fields
+	{"overlap: same field twice", `{ dog { name name } }`, ""},
+	{"overlap: same field under two aliases", `{ dog { a: name b: name } }`, ""},
+	{"overlap: alias onto another field", `{ dog { n: name n: nick } }`, rOverlap},
+	{"overlap: alias against plain name", `{ dog { name: nick name } }`, rOverlap},
+	{"overlap: differing argument values", `{ dog { knows(cmd: SIT) knows(cmd: DOWN) } }`, rOverlap},
+	{"overlap: argument present / absent", `{ dog { knows(cmd: SIT, loud: true) knows(cmd: SIT) } }`, rOverlap},
+	{"overlap: argument order is irrelevant", `{ dog { knows(cmd: SIT, loud: true) knows(loud: true, cmd: SIT) } }`, ""},
+	{"overlap: same variable on both sides", `query ($a: ID) { pet(id: $a) { name } pet(id: $a) { id } }`, ""},
+	{"overlap: variable against literal", `query ($a: ID) { pet(id: $a) { name } pet(id: "x") { id } }`, rOverlap},
+	{"overlap: input object field order is significant (edition)", `{ search(strict: [], f: {min: 1, max: 2}) { name } search(strict: [], f: {max: 2, min: 1}) { name } }`, rOverlap},
+	{"overlap: different fields of same shape under two object types", `{ pet { ... on Dog { n: nick } ... on Cat { n: name } } }`, ""},
+	{"overlap: nullability differs under two object types", `{ pet { ... on Dog { n: nick } ... on Cat { n: nick } } }`, rOverlap},
+	{"overlap: Int against Float under two object types", `{ pet { ... on Dog { age } ... on Cat { age } } }`, rOverlap},
+	{"overlap: inner nullability of list differs", `{ pet { ... on Dog { tags } ... on Cat { tags } } }`, rOverlap},
+	{"overlap: list against non-list", `{ pet { ... on Dog { x: tags } ... on Cat { x: name } } }`, rOverlap},
+	{"overlap: leaf against composite", `{ pet { ... on Dog { x: owner { name } } ... on Cat { x: name } } }`, rOverlap},
+	{"overlap: __typename against a Float field", `{ pet { ... on Dog { t: __typename } ... on Cat { t: age } } }`, rOverlap},
+	{"overlap: object type against its interface is not exclusive", `{ pet { ... on Dog { x: name } ... on Pet { x: id } } }`, rOverlap},
+	{"overlap: two interfaces are not exclusive", `{ dog { ... on Pet { x: name } ... on Named { x: name } } }`, ""},
+	{"overlap: through two fragments", `{ dog { ...A ...B } } fragment A on Dog { x: name } fragment B on Dog { x: nick }`, rOverlap},
+	{"overlap: field against fragment", `{ dog { x: name ...A } } fragment A on Dog { x: nick }`, rOverlap},
+	{"overlap: field against chain of two fragments", `{ dog { x: name ...A } } fragment A on Dog { ...B } fragment B on Dog { x: nick }`, rOverlap},
+	{"overlap: field against chain of three fragments", `{ dog { ...A x: name } } fragment A on Dog { ...B } fragment B on Dog { barks ...C } fragment C on Dog { x: nick }`, rOverlap},
+	{"overlap: inside a fragment definition nobody... but used", `{ dog { ...A } } fragment A on Dog { x: name x: nick }`, rOverlap},
+	{"overlap: nested one level", `{ dog { owner { n: name } } dog { owner { n: id } } }`, rOverlap},
+	{"overlap: nested two levels, one side in a fragment", `{ dog { owner { friend { n: name } } } ...A } fragment A on Q { dog { owner { friend { n: nick } } } }`, rOverlap},
+	{"overlap: exclusive parents, sub-fields of different shape", `{ pet { ... on Dog { owner { n: name } } ... on Cat { owner { n: id } } } }`, rOverlap},
+	{"overlap: exclusive parents, sub-fields same shape but different fields (legal per spec)", `{ pet { ... on Dog { owner { n: name } } ... on Cat { owner { n: nick } } } }`, ""},
+	{"overlap: exclusive parents, differing arguments (legal)", `{ self { pet { ... on Dog { knows(cmd: SIT) } } } self { pet { ... on Cat { knows: meows } } } }`, ""},
+	{"overlap: unknown field on one side still differs by name", `{ dog { x: nope x: name } }`, rFields + " " + rOverlap},
+	{"overlap: conflict in sub-selection of unknown field", `{ nope { a: x a: y } }`, rFields + " " + rOverlap},
+	{"overlap: terminates on fragment cycles", `{ dog { ...A } } fragment A on Dog { name owner { friend { name } } ...A }`, rCycles},
+	{"overlap: conflict found despite a cycle", `{ dog { ...A } } fragment A on Dog { x: name ...B } fragment B on Dog { x: nick ...A }`, rCycles + " " + rOverlap},
+	{"overlap: self-similar pair through a cycle terminates", `{ self { ...A } } fragment A on Q { self { ...A } self { ...A } }`, rCycles},
+	{"overlap: mutation root", `mutation { bump(by: 1) bump(by: 2) }`, rOverlap},
+
+	// --- variables in allowed position
+	{"varpos: Int into [Int]", `query ($a: Int) { search(strict: [], ints: $a) { name } }`, rVarPos},
+	{"varpos: [Int] into [Int]", `query ($a: [Int]) { search(strict: [], ints: $a) { name } }`, ""},
+	{"varpos: [Int!]! into [Int]", `query ($a: [Int!]!) { search(strict: [], ints: $a) { name } }`, ""},
+	{"varpos: [Int] into [Int!]!", `query ($a: [Int]) { search(strict: $a) { name } }`, rVarPos},
+	{"varpos: [Int!] into [Int!]!", `query ($a: [Int!]) { search(strict: $a) { name } }`, rVarPos},
+	{"varpos: [Int!] with default into [Int!]!", `query ($a: [Int!] = [1]) { search(strict: $a) { name } }`, ""},
+	{"varpos: [Int] with default into [Int!]!", `query ($a: [Int] = [1]) { search(strict: $a) { name } }`, rVarPos},
+	{"varpos: Int! as element of [Int]", `query ($a: Int!) { search(strict: [], ints: [$a, 1]) { name } }`, ""},
+	{"varpos: Int as element of [Int!]!", `query ($a: Int) { search(strict: [$a]) { name } }`, rVarPos},
+	{"varpos: Int with default as element of [Int!]!", `query ($a: Int = 1) { search(strict: [$a]) { name } }`, ""},
+	{"varpos: [Int] as element of [[Int]]", `query ($a: [Int]) { search(strict: [], nested: [$a]) { name } }`, ""},
+	{"varpos: Int as element of [[Int]]", `query ($a: Int) { search(strict: [], nested: [$a]) { name } }`, rVarPos},
+	{"varpos: Int into Int! input field", `query ($a: Int) { search(strict: [], f: {min: $a}) { name } }`, rVarPos},
+	{"varpos: Int into Int input field, nested object", `query ($a: Int) { search(strict: [], f: {min: 1, sub: {min: 2, max: $a}}) { name } }`, ""},
+	{"varpos: String! into [String!] input field", `query ($a: String!) { search(strict: [], f: {min: 1, tags: $a}) { name } }`, rVarPos},
+	{"varpos: Boolean into Boolean!", `query ($a: Boolean) { flag(b: $a) }`, rVarPos},
+	{"varpos: Boolean with default into Boolean!", `query ($a: Boolean = false) { flag(b: $a) }`, ""},
+	{"varpos: Boolean into @skip(if:)", `query ($a: Boolean) { dog @skip(if: $a) { name } }`, rVarPos},
+	{"varpos: String into ID", `query ($a: String) { pet(id: $a) { name } }`, rVarPos},
+	{"varpos: Int into custom directive Int!", `query ($a: Int) { dog @tag(n: $a) { name } }`, rVarPos},
+	{"varpos: per operation through a shared fragment", `query A($a: Int!) { ...F } query B($a: Int) { ...F } fragment F on Q { search(strict: [$a]) { name } }`, rVarPos},
+	{"varpos: unknown argument is skipped", `query ($a: Int) { flag(b: true, zz: $a) }`, rKnownArg},
+	{"varpos: object type variable", `query ($a: Dog) { pet(id: $a) { name } }`, rVarInput + " " + rVarPos},
+
+	// --- defaults
+	{"default: on non-null variable", `query ($a: Int! = 1) { search(strict: [$a]) { name } }`, rDefault},
+	{"default: single value for list", `query ($a: [Int] = 1) { search(strict: [], ints: $a) { name } }`, ""},
+	{"default: wrong element", `query ($a: [Int] = [1, "x"]) { search(strict: [], ints: $a) { name } }`, rDefault},
+	{"default: input object misses required field", `query ($a: Filter = {max: 1}) { search(strict: [], f: $a) { name } }`, rDefault},
+	{"default: unknown type is not judged", `query ($a: Nope = 1) { flag(b: true, zz: $a) }`, rKnownTyp + " " + rKnownArg},
+
+	// --- possible fragment spreads
+	{"spread: object in other object", `{ dog { ... on Cat { name } } }`, rSpreads},
+	{"spread: object in itself", `{ dog { ... on Dog { name } } }`, ""},
+	{"spread: implemented interface in object", `{ dog { ... on Pet { name } } }`, ""},
+	{"spread: containing union in object", `{ dog { ... on CatOrDog { __typename } } }`, ""},
+	{"spread: foreign union in object", `{ dog { ... on HumanOrAlien { __typename } } }`, rSpreads},
+	{"spread: implementer in interface", `{ pet { ... on Dog { barks } } }`, ""},
+	{"spread: non-implementer in interface", `{ pet { ... on Human { name } } }`, rSpreads},
+	{"spread: overlapping union in interface", `{ pet { ... on CatOrDog { __typename } } }`, ""},
+	{"spread: disjoint union in interface", `{ pet { ... on HumanOrAlien { __typename } } }`, rSpreads},
+	{"spread: partially overlapping union in interface", `{ named { ... on HumanOrAlien { __typename } } }`, ""},
+	{"spread: disjoint interface in union (named fragment)", `{ hoa { ...F } } fragment F on Pet { name }`, rSpreads},
+	{"spread: overlapping interface in union (named fragment)", `{ hoa { ...F } } fragment F on Named { name }`, ""},
+	{"spread: non-member in union", `{ catOrDog { ... on Human { name } } }`, rSpreads},
+	{"spread: interface in interface with common implementer", `{ pet { ... on Named { name } } }`, ""},
+	{"spread: no type condition", `{ dog { ... { name } ... @include(if: true) { nick } } }`, ""},
+	{"spread: enum condition is another rule's business", `{ dog { ... on Cmd { name } } }`, rFragComp},
+	{"spread: parent from fragment definition", `{ dog { ...A } } fragment A on Dog { ... on Cat { name } }`, rSpreads},
+
+	// --- cycles and the fragment graph
+	{"cycle: self", `{ dog { ...A } } fragment A on Dog { ...A }`, rCycles},
+	{"cycle: two, nested in field and inline fragment", `{ human(id: 1) { ...A } } fragment A on Human { friend { ...B } } fragment B on Human { ... on Human { ...A } }`, rCycles},
+	{"cycle: three", `{ dog { ...A } } fragment A on Dog { ...B } fragment B on Dog { ...C } fragment C on Dog { ...A }`, rCycles},
+	{"cycle: not reachable from an operation", `{ dog { name } } fragment A on Dog { ...B } fragment B on Dog { ...A }`, rCycles + " " + rUnusedFr},
+	{"cycle: a fragment leading into a cycle is not on it", `{ dog { ...C } } fragment C on Dog { ...A } fragment A on Dog { ...A }`, rCycles},
+	{"cycle: diamond is not a cycle", `{ dog { ...A } } fragment A on Dog { ...B ...C } fragment B on Dog { ...D } fragment C on Dog { ...D } fragment D on Dog { name }`, ""},
+	{"graph: unknown spread inside a fragment", `{ dog { ...A } } fragment A on Dog { ...Nope }`, rKnownFrg},
+	{"graph: fragment used only by an unused fragment", `{ dog { name } } fragment A on Dog { ...B } fragment B on Dog { name }`, rUnusedFr},
+
+	// --- variables: defined / used
+	{"vars: undefined in one of two operations", `query A($a: ID) { ...F } query B { ...F } fragment F on Q { pet(id: $a) { name } }`, rUndefVar},
+	{"vars: used only in an unreachable fragment", `query A($a: ID) { dog { name } } fragment F on Q { pet(id: $a) { name } }`, rUnusedVa + " " + rUnusedFr},
+	{"vars: used inside a list inside an object", `query ($a: String!) { search(strict: [], f: {min: 1, tags: [$a]}) { name } }`, ""},
+	{"vars: used in directive on operation-level fragment spread", `query ($a: Boolean!) { ...F @include(if: $a) } fragment F on Q { dog { name } }`, ""},
+	{"vars: used through a fragment chain", `query ($a: ID) { ...A } fragment A on Q { ...B } fragment B on Q { pet(id: $a) { name } }`, ""},
+	{"vars: duplicate definition", `query ($a: ID, $a: ID) { pet(id: $a) { name } }`, rUniqVar},
+	{"vars: same name in two operations is fine", `query A($a: ID) { pet(id: $a) { name } } query B($a: ID) { pet(id: $a) { name } }`, ""},
+
+	// --- fields, leafs, arguments, directives, values, operations
+	{"fields: meta fields on the query root", `{ __type(name: "Dog") { name } __schema { types { name } } __typename }`, ""},
+	{"fields: __schema below the root", `{ dog { __schema { types { name } } } }`, rFields},
+	{"fields: __schema on a nested query type", `{ self { __schema { types { name } } } }`, ""},
+	{"fields: on union", `{ catOrDog { name } }`, rFields},
+	{"fields: __typename on union", `{ catOrDog { __typename } }`, ""},
+	{"fields: implementer's field on interface", `{ pet { barks } }`, rFields},
+	{"fields: inside fragment on unknown type", `{ dog { ... on Nope { whatever } } }`, rKnownTyp},
+	{"leafs: composite without selection", `{ dog }`, rLeafs},
+	{"leafs: scalar with selection", `{ dog { name { x } } }`, rLeafs},
+	{"leafs: list of composite without selection", `{ search(strict: []) }`, rLeafs},
+	{"args: required missing on field", `{ human { name } }`, rRequired},
+	{"args: required missing on directive", `{ dog @include { name } }`, rRequired},
+	{"args: argument with default may be omitted", `mutation { bump }`, ""},
+	{"args: unknown on directive", `{ dog @skip(if: true, unless: false) { name } }`, rKnownArg},
+	{"args: duplicate", `{ flag(b: true, b: true) }`, rUniqArg},
+	{"args: unknown on __typename", `{ __typename(x: 1) }`, rKnownArg},
+	{"directives: @skip on query", `query @skip(if: true) { dog { name } }`, rKnownDir},
+	{"directives: custom on allowed locations", `query @onQuery { dog @tag(n: 1) { name } ...F } fragment F on Q @tag(n: 2) { __typename }`, ""},
+	{"directives: custom on wrong locations", `mutation @onQuery { bump @onQuery }`, rKnownDir},
+	{"directives: @deprecated in a query", `{ dog @deprecated { name } }`, rKnownDir},
+	{"directives: unknown", `{ dog @nope { name } }`, rKnownDir},
+	{"values: single value for list, also nested", `{ search(strict: 1, ints: 2, nested: 3) { name } }`, ""},
+	{"values: wrong element in list", `{ search(strict: [1, "a"]) { name } }`, rArgs},
+	{"values: string for enum", `{ dog { knows(cmd: "SIT") } }`, rArgs},
+	{"values: unknown enum value", `{ dog { knows(cmd: ROLL) } }`, rArgs},
+	{"values: float for ID", `{ pet(id: 1.5) { name } }`, rArgs},
+	{"values: int for ID", `{ pet(id: 15) { name } }`, ""},
+	{"values: Int out of 32 bits inside object", `{ search(strict: [], f: {min: 3000000000}) { name } }`, rArgs},
+	{"values: unknown input field", `{ search(strict: [], f: {min: 1, zz: 1}) { name } }`, rArgs},
+	{"values: missing required input field in nested object", `{ search(strict: [], f: {min: 1, sub: {max: 1}}) { name } }`, rArgs},
+	{"values: variables are accepted anywhere", `query ($a: Int!, $f: Filter) { search(strict: [$a], f: {min: $a, sub: $f}) { name } }`, ""},
+	{"values: duplicate input field", `{ search(strict: [], f: {min: 1, min: 2}) { name } }`, rUniqInp},
+	{"values: duplicate input field in nested object", `{ search(strict: [], f: {min: 1, sub: {min: 1, min: 2}}) { name } }`, rUniqInp},
+	{"values: same field name at two depths is fine", `{ search(strict: [], f: {min: 1, sub: {min: 1}}) { name } }`, ""},
+	{"values: duplicate input field in object in list", `query ($a: [Filter] = [{min: 1, min: 1}]) { search(strict: [], f: $a) { name } }`, rUniqInp + " " + rVarPos},
+	{"operations: two anonymous", `{ __typename } { __typename }`, rLoneAnon},
+	{"operations: anonymous and named", `{ __typename } query A { __typename }`, rLoneAnon},
+	{"operations: anonymous with fragments only", `{ ...F } fragment F on Q { __typename }`, ""},
+	{"operations: duplicate name across kinds", `query A { __typename } mutation A { bump }`, rUniqOp},
+	{"operations: fragment may share an operation's name", `query A { ...A } fragment A on Q { __typename }`, ""},
+	{"fragments: duplicate name", `{ ...A } fragment A on Q { __typename } fragment A on Q { __typename }`, rUniqFrag},
+	{"fragments: on scalar, enum, input", `{ ...A ...B ... on Filter { __typename } } fragment A on Int { __typename } fragment B on Cmd { __typename }`, rFragComp},
+	{"types: introspection type names exist", `{ ... on __Type { name } }`, ""},
+	{"types: unknown in list variable", `query ($a: [Nope!]) { flag(b: true, zz: $a) }`, rKnownTyp + " " + rKnownArg},
+}
+
+func ruleSet(s string) string {
+	f := strings.Fields(s)
+	sort.Strings(f)
+	return strings.Join(f, " ")
+}
+
+func TestValidateTable(t *testing.T) {
+	if v := ref.Validate(tableSchema, parseDoc(`{ __typename }`)); len(ref.Violated(v)) != 0 {
+		t.Fatalf("trivial document: %v", v)
+	}
+	for _, tc := range tableCases {
+		d := parseDoc(tc.doc)
+		// the reader and the printer agree
+		if again := model.Print(parseDoc(model.Print(d, nil).Text), nil).Text; again != model.Print(d, nil).Text {
+			t.Errorf("%s: reader/printer round trip differs:\n%s\n%s", tc.name, model.Print(d, nil).Text, again)
+		}
+		v := ref.Validate(tableSchema, d)
+		got := strings.Join(ref.Violated(v), " ")
+		if ruleSet(got) != ruleSet(tc.want) {
+			t.Errorf("%s\n   %s\n   want [%s]\n   got  [%s]\n   %v", tc.name, tc.doc, tc.want, got, v)
+		}
+		// acceptable nodes must be nodes of the document (or position keys of such nodes)
+		pos := model.Print(d, nil).Pos
+		for _, vs := range v {
+			for _, x := range vs {
+				if len(x.Nodes) == 0 {
+					t.Errorf("%s: violation without nodes: %v", tc.name, x)
+				}
+				some := false
+				for _, n := range x.Nodes {
+					if _, ok := pos[n]; ok {
+						some = true
+					}
+				}
+				if !some {
+					t.Errorf("%s: none of the nodes of %v has a printed position", tc.name, x)
+				}
+			}
+		}
+	}
+}
+
+// A fragment that merely leads into a cycle contributes no acceptable node.
+func TestValidateCycleNodes(t *testing.T) {
+	d := parseDoc(`{ dog { ...C } } fragment C on Dog { ...A } fragment A on Dog { name ...A }`)
+	v := ref.Validate(tableSchema, d)["NoFragmentCycles"]
+	if len(v) != 1 || len(v[0].Nodes) != 1 || v[0].Nodes[0] != interface{}(d.Defs[2].Sel[1]) {
+		t.Fatalf("want exactly the self-spread of A, got %v", v)
 	}
 }
